@@ -314,7 +314,7 @@ func runC04(r *Run) {
 					}
 				}
 				if br, ok := n.(*ast.BranchStmt); ok && br.Tok.String() == "continue" {
-					for _, f := range it.FactsAt(br, false) {
+					for _, f := range it.factsAt(br, false) {
 						if c, ok := factCmp(f); ok {
 							l, rr, op := c.L, c.R, c.Op
 							if st, isStar := stripParens(l).(*ast.StarExpr); isStar && it.objOf(st.X) == hf {
